@@ -14,6 +14,7 @@ generated, shrunk, stored and replayed without a PRNG.  Tagged forms:
   {"$arr": recipe}                numpy array, see make_array
   {"$obj": "object"}              an arbitrary non-supported Python object (for rejected calls)
 """
+import sys
 import random
 import datetime as _dt
 import numpy as np
@@ -109,6 +110,10 @@ class Codec:
     def dec(self, v):
         if isinstance(v, list):
             return [self.dec(x) for x in v]
+        if isinstance(v, str):
+            # the simulated caller passes string literals: interned, as in real code - and identical in every process, so that
+            # code comparing objects by identity behaves the same in a worker, a fresh interpreter and a replay
+            return sys.intern(v)
         if not isinstance(v, dict):
             return v
         if '$ref' in v:
